@@ -23,8 +23,20 @@ def note(proto):
     JOURNAL.append((ROLE[0], proto, inside_tracer()))
 
 
+FINALIZED = []
+
+
+class _Local:
+    def __del__(self):
+        FINALIZED.append(1)
+
+
 class Holder:
     obj = None
+
+    @staticmethod
+    def make_local():
+        return _Local()
 
 
 # --- attribute protocols ---------------------------------------------------------------------------------
